@@ -42,6 +42,8 @@ def plan(tier: str, seed: int) -> list[dict]:
     specs = []
     for i in range(3 if q else 6):
         specs.append({"name": f"nonce-{i}", "fn": "shard_nonce", "histories": 500 if q else 12000, "_budget_s": 60 if q else 900, "_timeout_s": 500 if q else 2400})
+    for i in range(2 if q else 6):
+        specs.append({"name": f"nonce-threads-{i}", "fn": "shard_nonce_threads", "rounds": 1500 if q else 40000, "_budget_s": 60 if q else 900, "_timeout_s": 500 if q else 2400})
     for i in range(2 if q else 4):
         specs.append({"name": f"signer-{i}", "fn": "shard_signer", "histories": 500 if q else 12000, "_budget_s": 150 if q else 900, "_timeout_s": 500 if q else 2400})
     for i in range(3 if q else 6):
@@ -57,7 +59,7 @@ def plan(tier: str, seed: int) -> list[dict]:
 def finalize(m: dict, tier: str) -> list[str]:
     out = []
     s, c = m["stats"], m["classes"]
-    need_stats = ["nonce:success", "nonce:refused-after-use", "nonce:psbt-partial_sign:success", "signer:dsa:signed", "signer:ssa:signed",
+    need_stats = ["nonce:success", "nonce:refused-after-use", "nonce-threads:signers-that-signed:1", "nonce:psbt-partial_sign:success", "signer:dsa:signed", "signer:ssa:signed",
                   "signer:software:signed", "signer:refused-when-dead", "wallet:next_address", "wallet:address", "wallet:kind:BIP32KeyWallet",
                   "wallet:kind:DescriptorWallet", "wallet:kind:ScriptWallet", "wallet:kind:KeyWallet", "independence:after-cache-clear",
                   "independence:after-cache-overflow", "independence:backend-switched", "independence:after-the-caller-edited-an-answer", "cache:hit:_cached_base58_decode",
@@ -165,6 +167,76 @@ def shard_nonce(ctx: Ctx) -> None:
             psbt_env.history(h)
     if backend_available():
         set_backend(True)
+
+
+def shard_nonce_threads(ctx: Ctx) -> None:
+    """One secret nonce handed to several threads at once: at most one of them signs.
+
+    Each round a fresh nonce and 2..6 threads released by a barrier, each calling ``musig2.sign`` with the same
+    bytearray (same or different sessions, right and wrong keys mixed in); the history is the multiset of outcomes.
+    No yields are injected: the interpreter's own preemption, at switch intervals a program may set, is the schedule.
+    """
+    import sys
+    import threading
+
+    from btclib.curves.curve import mult
+    from btclib.curves.sec_point import bytes_from_point
+    from btclib.ecc import musig2
+
+    r = ctx.rng
+    old_interval = sys.getswitchinterval()
+    try:
+        for h in range(ctx.params["rounds"]):
+            if ctx.out_of_time():
+                break
+            interval = r.choice([5e-3, 1e-4, 1e-5, 1e-5, 1e-6])
+            sys.setswitchinterval(interval)
+            if backend_available():
+                set_backend(h % 5 != 4)
+            nthreads = r.choice([2, 3, 4, 4, 6])
+            sks = [int.from_bytes(H("tsk", ctx.shard, h, j), "big") % (N - 1) + 1 for j in range(2)]
+            pks = [bytes_from_point(mult(k)) for k in sks]
+            msg = H("tmsg", h)
+            other = musig2.nonce_gen(sks[1], pks[1], None, msg, None)
+            sn, pn = musig2.nonce_gen(sks[0], pks[0], None, msg, H("textra", h))
+            agg = musig2.nonce_agg([pn, other[1]])
+            same_session = h % 3 == 0
+            sessions = [musig2.SessionContext(agg, list(pks), [], [], msg if same_session else msg + bytes([i])) for i in range(nthreads)]
+            wrong = r.randrange(nthreads) if h % 4 == 1 else -1     # one caller picks up the wrong key
+            bar = threading.Barrier(nthreads)
+            res: list = [None] * nthreads
+
+            def run(i):
+                key = sks[0] if i != wrong else (sks[0] + 1) % N or 1
+                bar.wait()
+                res[i] = outcome(musig2.sign, sn, key, sessions[i])
+            ths = [threading.Thread(target=run, args=(i,)) for i in range(nthreads)]
+            for t in ths:
+                t.start()
+            for t in ths:
+                t.join(60)
+            if any(t.is_alive() for t in ths) or any(x is None for x in res):
+                ctx.stat("nonce-threads:round-abandoned")
+                continue
+            signed = [i for i, x in enumerate(res) if x[0] == "ok"]
+            ctx.mon("M5:musig2.sign:concurrent", nthreads)
+            ctx.stat(f"nonce-threads:signers-that-signed:{len(signed)}")
+            ctx.stat(f"nonce-threads:switch-interval:{interval}")
+            case = {"threads": nthreads, "switch_interval": interval, "same_session": same_session, "wrong_key_thread": wrong,
+                    "outcomes": [x[0] if x[0] == "ok" else type(x[1]).__name__ for x in res]}
+            if len(signed) > 1:
+                ctx.violation("nonce-signed-twice:concurrent-callers",
+                              f"{len(signed)} of {nthreads} threads handed one secret nonce each got a partial signature from musig2.sign", case)
+            for x in res:
+                if x[0] == "raise" and not is_lib_exc(x[1]):
+                    ctx.violation(f"nonce:foreign-exception:{type(x[1]).__name__}", f"concurrent musig2.sign raised {x[1]!r}", case)
+            if signed and bytes(sn[:64]) != bytes(64):
+                ctx.violation("nonce-not-zeroed-after-signing", "the secret nonce still holds its scalars after concurrent musig2.sign calls", case)
+            ctx.case("nonce-threads", (nthreads, interval, same_session, wrong, tuple(case["outcomes"])), nontrivial=bool(signed), sample=case)
+    finally:
+        sys.setswitchinterval(old_interval)
+        if backend_available():
+            set_backend(True)
 
 
 class _PsbtMusig:
